@@ -636,7 +636,9 @@ def solve_t_part(rep, tier: str) -> None:
             if cand['replay']['bad']:
                 if cfg['part'] == 'frange':
                     key = (f"solve:{cfg['prog']},max_iter={cfg['B']},periods={cfg['n_periods']},errors={cfg['errors']},failures={cfg['failures']},"
-                           f"start={cfg['start']},end={cfg['end']}:{cand['replay']['bad'][0][:90]}")
+                           f"start={cfg['start']},end={cfg['end']},offset={cfg.get('offset', 0)}:{cand['replay']['bad'][0][:90]}")
+                    if cfg.get('offset') and cfg['errors'] != 'raise' and 'IndexError' in str(cand['replay']['impl']):
+                        key = 'solve:offset-outside-span-later-periods-solved'
                 else:
                     key = (f"solve_t:{cfg['prog']},max_iter={cfg['B']},errors={cfg['errors']},failures={cfg['failures']},neg={cfg['neg']},"
                            f"offset={cfg['offset']}:{cand['replay']['bad'][0][:90]}")
@@ -673,7 +675,7 @@ def solve_t_part(rep, tier: str) -> None:
         'replay': 'gfortran -shared build of the same source through ctypes with f2py\'s signatures, under the real wrapper, beside the real Python engine',
     }
     cov['outside_claim'] = [x for x in cov.get('outside_claim', []) if not x.startswith('the compiled solve_t and solve')] + [
-        'FortranEngine.solve() with offset != 0 and on spans longer than lags + leads + 3', 'non-finite data in the Fortran loop (C07 is stated for finite data; the engines differ there by design: replace)',
+        'FortranEngine.solve() on spans longer than lags + leads + 3 and with symbolic offsets (offsets -1 / +1 are crossed with every error policy)', 'non-finite data in the Fortran loop (C07 is stated for finite data; the engines differ there by design: replace)',
         'infeasible periods and index errors inside the Fortran routines (the wrapper reports them as FortranEngineError)',
         'gfortran\'s translation of the solve_t template to machine code (the SOURCE is interpreted; only counterexamples run on machine code)']
     rep.assumptions = sorted(set(rep.assumptions) | {a for r in results if 'harness_error' not in r for a in r['assumptions']})
